@@ -254,6 +254,10 @@ def run(ctx):
     if m is None or list(m['groups']) != ['ZZ(Q)']:
         report('relocation-ignored', 'pgradd_DATA_DIR is not honoured: MarkerLib in the relocated directory '
                'did not load (%s)' % em)
+    # locating a library as a process-level state machine (DataDir.tla)
+    import random
+    from .. import datadir
+    datadir.check(ctx, random.Random(ctx.seed), report)
     out, r = ctx.tlc_json('Static', 'Static.cfg', {'libs': static_in})
     if not out.get('done'):
         raise MachineryError('Static did not finish')
